@@ -96,7 +96,7 @@ class Gen:
             "max_depth": 2, "scalar_sub": True, "corr": True, "nulls_first": True,
             "limit": True, "dom": 3, "values": False, "grouping_sets": False, "mixed_width_keys": False, "outer_chains": False, "nonnull_col_p": 0.3,
             "group_keys_nonnull": False, "distinct_nonnull": False,
-            "setop_p": 0.15, "order_p": 0.6, "cte_p": 0.15, "group_p": 0.35, "const_atoms": True, "notin_sub": True,
+            "setop_p": 0.15, "order_p": 0.6, "cte_p": 0.15, "group_p": 0.35, "const_atoms": True, "notin_sub": True, "limit_p": 0.6, "offset_p": 0.5, "min_order_keys": 1, "where_p": 0.7, "distinct_order_keys": False,
         }
         if opts:
             self.o.update(opts)
@@ -452,7 +452,7 @@ class Gen:
         fsql, fm, cols = self.from_tree(tables, outer, 0 if simple else depth)
         scope = Scope(cols, outer)
         where = None
-        if r.random() < 0.7:
+        if r.random() < o["where_p"]:
             where = self.pred(scope, 0 if simple and r.random() < 0.5 else min(o["max_depth"], 2))
         grouped = scalar_agg or (o["group"] and not simple and coltype is None and r.random() < o["group_p"])
         group_m = {"on": 0}
@@ -518,9 +518,11 @@ class Gen:
         order_m, osql, limit, offset = [], "", -1, 0
         if o["order"] and (top or (nested and r.random() < 0.1)) and r.random() < (o["order_p"] if top else 1.0):
             oscope = Scope([Col(None, n, e.t) for e, n in zip(proj, names)], None) if distinct else None
-            nkeys = r.choice([1, 1, 2, 3])
+            nkeys = max(r.choice([1, 1, 2, 3]), o["min_order_keys"])
             items = []
-            for _ in range(nkeys):
+            for _ in range(nkeys * (3 if o["distinct_order_keys"] else 1)):
+                if len(items) >= nkeys:
+                    break
                 if distinct or r.random() < 0.5:
                     i = r.randrange(len(proj))
                     # order by output alias: model expr = the projected expression evaluated on the order row
@@ -540,6 +542,8 @@ class Gen:
                         esql = hit[0]
                 if et == "bool" or et.startswith("avg"):
                     continue
+                if o["distinct_order_keys"] and any(json_eq(em, it[1]) for it in items):
+                    continue
                 desc = r.randint(0, 1)
                 nf = None
                 if o["nulls_first"] and r.random() < 0.5:
@@ -549,10 +553,10 @@ class Gen:
                 osql = " ORDER BY " + ", ".join(
                     f"{s}{' DESC' if d else ''}{'' if nf is None else (' NULLS FIRST' if nf else ' NULLS LAST')}" for (s, m, d, nf) in items)
                 order_m = [{"e": m, "desc": d, "nf": (nf if nf is not None else 0)} for (s, m, d, nf) in items]
-            if o["limit"] and top and r.random() < 0.6 and items:
+            if o["limit"] and top and r.random() < o["limit_p"] and items:
                 limit = r.randint(0, 5)
                 osql += f" LIMIT {limit}"
-                if r.random() < 0.5:
+                if r.random() < o["offset_p"]:
                     offset = r.randint(0, 4)
                     osql += f" OFFSET {offset}"
         sql = f"SELECT {'DISTINCT ' if distinct else ''}{selsql} FROM {fsql}"
@@ -639,6 +643,11 @@ def conjuncts(m):
             out.add(_j.dumps(x, sort_keys=True))
     walk(m)
     return out
+
+
+def json_eq(a, b):
+    import json as _j
+    return _j.dumps(a, sort_keys=True) == _j.dumps(b, sort_keys=True)
 
 
 def has_col(m):
